@@ -20,9 +20,6 @@ def run_check(tier, seed, replay=None):
             vh(["drive-decoder", "--histories", hp, "--out", tp])
             c11.validate_decoder_trace(rep, tp, "c04_replay", only_panics=True)
             return rep.finish()
-        if r.get("component") == "pipeline":
-            from . import pipe
-            return pipe.replay(rep, r)
         return pcommon.replay_parse(rep, replay, pcommon.CODE_PANIC, "c04")
     quick = tier == "quick"
     # totality of the decoder specification (model) + hostile decoder histories
@@ -49,20 +46,17 @@ def run_check(tier, seed, replay=None):
     # the loader on well-bracketed and ill-bracketed instruction sequences (panics only)
     from . import lcommon
     lhist = os.path.join(BUILD, "c04_loader.hist")
-    lmc = tlc_mc("MC_Loader.tla", "MC_Loader_%s.cfg" % tier, "c04_lmc", edges_out=lhist, timeout=2400)
+    lmc = tlc_mc("MC_Loader.tla", "MC_Loader_c04.cfg" if quick else "MC_Loader_thorough.cfg", "c04_lmc", edges_out=lhist, timeout=2400)
     for sname, suite, extra in [("lmodel", "classes", ["--histories", lhist]), ("lsweep", "sweep", []), ("lrandom", "random", ["--n", "300" if quick else "5000"])]:
         trace, info = lcommon.run_suite("c04_" + sname, suite, seed + 5, extra)
         n, nbad, counted, dt = lcommon.validate(rep, trace, "c04_" + sname, lcommon.CODE_PANIC)
         log("loader suite %s: %d events, %d rejected, %d panics" % (sname, n, nbad, counted))
         total += n
-    pipe_cov = {}
-    try:
-        from . import pipe
-    except ImportError:
-        pipe = None
-    if pipe:
-        pipe_cov = pipe.run(rep, "C04", tier, seed, panics_only=True)
-        total += pipe_cov.get("events", 0)
+    # every module the loader accepts: assemble (LoaderTrace above) and disassemble without panicking
+    from . import c07
+    dn, dtrace2 = c07.run_disasm(rep, "C04", seed + 9, 200 if quick else 4000, mask_panic_only=True)
+    total += dn
+    pipe_cov = {"disassembled_modules": dn}
     rc = rep.finish()
     write_evidence("C04", tier, seed, {
         "states": mc["states"], "transitions": mc["transitions"],
